@@ -461,7 +461,7 @@ def to_model(g: Grammar, name='T', **settings):
         if isinstance(e, OverList):
             return peg.OverrideList(exp=bt(e.e))
         if isinstance(e, Const):
-            return peg.Constant(literal=e.text)
+            return peg.Constant(literal=const_literal(e.text))
         if isinstance(e, Alert):
             return peg.Alert(literal=e.text, level=e.level)
         if isinstance(e, Void):
@@ -509,6 +509,18 @@ def to_model(g: Grammar, name='T', **settings):
         rules.append(rule)
     return peg.Grammar(name, rules, directives=directive_values(g.directives), keywords=tuple(g.keywords),
                        **settings)
+
+
+def const_literal(text: str):
+    """the literal the grammar-text route stores for a constant: numbers are converted, everything else stays text"""
+    import ast
+    try:
+        v = ast.literal_eval(text.strip())
+    except (ValueError, SyntaxError):
+        return text
+    if isinstance(v, (int, float)) and not isinstance(v, bool):
+        return v
+    return text
 
 
 def directive_values(d: dict) -> dict:
